@@ -37,6 +37,16 @@ def generate(rng, tier, rep):
                                     continue
                                 layers[lpos]['hooks']['setUp'] = ['raise']
                             cases.append({'layers': layers, 'tests': tests, 'options': ['-x'] + rpt})
+    if tier != 'search':
+        # the stop happens while a layer that cannot be torn down stands on base layers: they are torn down all the same
+        for kind in BAD[:4]:
+            for rpt in ([], ['--repeat', '2']):
+                for later in (False, True):
+                    layers = [{'name': 'La', 'bases': [], 'kind': 'instance', 'hooks': {'setUp': ['ok'], 'tearDown': ['ok']}},
+                              {'name': 'Lb', 'bases': [0], 'kind': 'instance', 'hooks': {'setUp': ['ok'], 'tearDown': ['notimpl']}},
+                              {'name': 'Lc', 'bases': [], 'kind': 'instance', 'hooks': {'setUp': ['ok'], 'tearDown': ['ok']}}]
+                    tests = [dict({'layer': 1}, **kind), {'layer': 1}] + ([{'layer': 2}] if later else [])
+                    cases.append({'layers': layers, 'tests': tests, 'options': ['-x'] + rpt})
     n = {'quick': 120, 'thorough': 1500, 'search': 400}[tier]
     for _ in range(n):
         opts = ['-x'] + (['--repeat', '2'] if rng.random() < 0.3 else []) + (['-v'] if rng.random() < 0.3 else [])
